@@ -40,7 +40,7 @@ where
     T: Jetty + FloatConst + for<'a> std::iter::Sum<&'a T> + for<'a> std::iter::Product<&'a T>,
 {
     let mut acc = Acc::new();
-    let nprog = ctx.n(1500, 60000);
+    let nprog = ctx.n(1500, 600000);
     let u = unit_roundoff::<T>();
     ndv_core::track::set_u(u);
     let huge = if T::IS_F32 { 1e30 } else { 1e250 };
